@@ -39,4 +39,9 @@ META = {
   "text": "TenantID/TenantIDs/ExtractWithMetadata/TenantIDsFromOrgID/MultiResolver are compared with a byte-class grammar written from the documentation on all 30941 strings of length <= 4 over {a Z 0 . | : = / NUL 0x80 0xFF space -} (thorough: length 5, 402k), lists of 0-5 pooled identifiers, random bytes, and (thorough) 2x10^6 go-fuzz executions; chains of 1-8 inject/extract hops (HTTP header, auth middleware, gRPC metadata, unary/stream interceptors) must fail or preserve the value byte for byte; valid identifiers also cross a real loopback HTTP server and a bufconn gRPC server; requests without org id must be rejected at every entry point.",
   "note": "Real wire hops only for valid identifiers (HTTP itself rejects control bytes). Empty identifier is inside the documented grammar.",
  },
+ "C10": {
+  "technique": "runtime trace monitor with a deterministic step scheduler (synctest): gated replica callbacks released one by one, 'returned iff decided' oracle per prefix; concurrent mode under the Go race detector",
+  "text": "The real DoBatchWithOptions runs inside a synctest bubble against a fake DoBatchRing, a real ring.Ring or the partition batch ring; replica callbacks park on gates that the harness opens in a chosen order, calling synctest.Wait() after each, so after every prefix of completions the monitor compares 'has it returned, with nil or which error' against the decision rule of the statement (three-valued: must-not / may / must), and at the end exactly-once return, one call per selected replica with exactly its indexes, cleanup once and after the last call, custom spawner use. All 3^n outcome assignments x n! orders are run for shapes with <= 4 replica calls, samples above; cancellation at random positions; empty key list; failing lookup. A second part runs all callbacks at once under -race and checks the order-independent verdict.",
+  "note": "Orders of external completion events are enumerated, not instruction interleavings inside dskit; the latter only through the -race part. MaxErrors < set size assumed (as every ring produces).",
+ },
 }
